@@ -189,15 +189,17 @@ func lcIsLegal(from, to account.State) bool {
 
 type lcSnap struct {
 	state  map[int]account.State
+	expiry map[int]uint32
 	rec    map[int]string
 	closed map[int]bool
 }
 
 func (e *lcEnv) snapshot() lcSnap {
 	main, _ := e.records()
-	s := lcSnap{state: map[int]account.State{}, rec: map[int]string{}}
+	s := lcSnap{state: map[int]account.State{}, rec: map[int]string{}, expiry: map[int]uint32{}}
 	for i, a := range main {
 		s.state[i] = a.State
+		s.expiry[i] = a.Expiry
 		s.rec[i] = e.fmtAcct(a)
 	}
 	return s
@@ -414,6 +416,7 @@ func (e *lcEnv) isAncestor(k int, op wire.OutPoint) bool {
 // ------------------------------------------------------------------ executing ops
 
 type lcRunner struct {
+	knownHit map[string]bool
 	r    *Run
 	e    *lcEnv
 	hist []string
@@ -998,12 +1001,52 @@ func (x *lcRunner) exec(o lcOp) {
 	if !e.waitAsync(expBefore) {
 		x.fail("expiry hand-off did not complete", "C08/harness")
 	}
+	if n := e.notifier.flushCancels(); n > 0 {
+		r.Count("notifier/cancel-errors-delivered")
+	}
+	if e.taint == nil {
+		e.taint = map[int]bool{}
+	}
+	if len(batchBefore) > 0 && len(e.batchAccts) == 0 && o.Op != "finalize" && o.Op != "drop" && o.Op != "complete" {
+		for _, j := range batchBefore {
+			if j != o.K && !(o.Op == "spend2" && j == o.K2) {
+				e.taint[j] = true
+				r.Count("taint/complete-without-rewatch")
+			}
+		}
+	}
+	switch o.Op {
+	case "restart", "complete":
+		e.taint = map[int]bool{}
+	case "wm":
+		delete(e.taint, o.K)
+	case "finalize":
+		for _, j := range batchBefore {
+			delete(e.taint, j)
+		}
+	}
 	switch {
 	case o.Op == "stage" && res == "ok", o.Op == "drop":
 		e.staleBatch = false
 	case inBatchBefore && accepted,
 		inBatchBefore && (o.Op == "spend" || o.Op == "spendd") && o.Kind == "sweep" && res == "ok":
 		e.staleBatch = true
+	}
+	{
+		if e.extBy == nil {
+			e.extBy = map[int]string{}
+		}
+		mainA, _ := e.records()
+		for k, a := range mainA {
+			if old, ok := before.expiry[k]; ok && old != a.Expiry {
+				cause := "batch"
+				if o.Op == "mod" && o.K == k {
+					cause = o.Kind
+				}
+				e.extBy[k] = cause
+				r.Count("expiry-changed/" + cause)
+			}
+		}
 	}
 	out := fmt.Sprintf("%s | %s | %s", res, e.dump(), e.effects(logFrom))
 	r.Emit("C08 "+line, out)
@@ -1015,6 +1058,27 @@ func (x *lcRunner) exec(o lcOp) {
 	for i, st := range e.snapshot().state {
 		if before.state[i] != st || before.rec[i] == "" {
 			r.Count(fmt.Sprintf("state/%s", st))
+		}
+	}
+	// no early expiry: an account is only marked expired once the chain has reached its
+	// stored expiry height
+	if x.bad == "" && o.Op != "expd" {
+		mainA, _ := e.records()
+		for k, a := range mainA {
+			prev, ok := before.state[k]
+			if !ok || prev == a.State {
+				continue
+			}
+			if (a.State == account.StateExpired || a.State == account.StateExpiredPendingUpdate) &&
+				prev != account.StateExpiredPendingUpdate && a.Expiry > e.height {
+				key := "C08/expired-early"
+				if c := e.extBy[k]; c != "" && c != "renew" {
+					// the expiry was extended by a deposit / withdrawal / batch
+					key = "C08/expired-early-extension"
+				}
+				x.fail(fmt.Sprintf("after op #%d (%s): account %d with expiry %d was marked %v at height %d (expiry last changed by: %s)",
+					len(x.hist)-1, line, k, a.Expiry, a.State, e.height, e.extBy[k]), key)
+			}
 		}
 	}
 	if x.bad == "" && expirySpend && len(batchBefore) > 0 && len(e.batchAccts) == 0 && res == "ok" {
@@ -1069,6 +1133,31 @@ func (x *lcRunner) exec(o lcOp) {
 func (x *lcRunner) fail(what, key string) {
 	if x.e.staleApplied && key != "C08/harness" {
 		key = "C08/stale-staged-batch"
+	}
+	// consequences of the open finding: the account's batch was committed by another account's
+	// spend handler and its watchers were never re-armed
+	if i := strings.Index(what, "account "); i >= 0 && key != "C08/harness" {
+		var acc int
+		fmt.Sscanf(what[i:], "account %d", &acc)
+		if x.e.taint[acc] {
+			key = "C08/complete-without-rewatch"
+		}
+	}
+	if key == "C08/expired-early-extension" {
+		// an open known finding without consequences for the rest of the history: record it
+		// once and keep checking
+		if !x.knownHit[key] {
+			if x.knownHit == nil {
+				x.knownHit = map[string]bool{}
+			}
+			x.knownHit[key] = true
+			x.r.Count("viol/" + key)
+			if lcSeenViol[key] < 2 {
+				lcSeenViol[key]++
+				x.r.Violate(what, key, map[string]interface{}{"ops": x.ops, "trace": append([]string(nil), x.hist...)})
+			}
+		}
+		return
 	}
 	if x.bad == "" {
 		x.bad, x.key = what, key
@@ -1401,6 +1490,16 @@ func (x *lcRunner) gen0() lcOp {
 		}
 		return lcOp{Op: pick("close", "bump", "restart", "mod"), K: k, Kind: "deposit", A: 30000, V: int(a.Version)}
 	case account.StatePendingUpdate, account.StatePendingBatch:
+		if x, ok := watcher.VerifLifecycleExpiry(e.ctrl.real, e.accts[k].key.PubKey); ok && e.started &&
+			x < a.Expiry && x > e.height && rng.Intn(3) == 0 {
+			// the chain reaches the expiry height the watcher still tracks (the
+			// account's expiry was extended in the meantime)
+			return lcOp{Op: "block", A: int64(x) - int64(e.height) + int64(rng.Intn(2))}
+		}
+		if a.State == account.StatePendingBatch && len(staged) == 0 && rng.Intn(3) == 0 {
+			// the next batch arrives before the previous batch transaction confirmed
+			return stageOp()
+		}
 		switch q := rng.Intn(10); {
 		case q < 2 && int64(a.Expiry) > int64(e.height):
 			// let the account expire while its update is unconfirmed
@@ -1561,6 +1660,9 @@ func runC08(r *Run) {
 	if r.ReplayFile != "" {
 		return
 	}
+	// overlapping store updates, and the expiry registration sites (manager level)
+	lcStoreRace(r)
+	c09ManagerScenarios(r)
 	for c := 0; c < r.N; c++ {
 		n := 5 + r.Rng.Intn(21)
 		ops := lcRunHistory(r, nil, n, -1, "base")
